@@ -156,6 +156,52 @@ def correspondence(rep, ctx):
         back = {"activity": inv.activities, "mass": inv.masses, "moles": inv.moles}[kind](u)[nm]
         if abs(F(back) - Fraction(int(x.p), int(x.q))) > 2 * ULP * Fraction(int(x.p), int(x.q)):
             fail(desc, f"reads back {back!r}")
+    # ---- high-precision class with FLOAT amounts: the stored value is the input read to 15 significant digits
+    hpf_lines, hpf_items = [], []
+    for _ in range(1500 if thorough else 250):
+        i = r.choice(nuclides)
+        nm = names[i]
+        kind, u = r.choice(units + [("num", "num")] * 4)
+        rate = view.rate[i]
+        if kind == "activity" and rate == 0:
+            continue
+        if not sy.atomic_masses[i].is_Rational:
+            continue
+        x = 10.0 ** r.uniform(-24, 25)
+        via = r.choice(["ctor", "ctor", "add", "subtract"])
+        try:
+            if via == "ctor":
+                inv = rd.InventoryHP({nm: x}, u)
+                N = inv.contents[nm]
+            elif via == "add":
+                inv = rd.InventoryHP({nm: 0}, "num")
+                inv.add({nm: x}, u)
+                N = inv.contents[nm]
+            else:
+                inv = rd.InventoryHP({nm: 0}, "num")
+                inv.subtract({nm: x}, u)
+                N = -inv.contents[nm]
+        except Exception as e:  # noqa: BLE001
+            fail(f"InventoryHP({{{nm!r}: {x!r}}}, {u!r}) via {via}", f"raised {type(e).__name__}: {e}")
+            continue
+        q = sympy.nsimplify(N * ln2) if kind == "activity" else N
+        try:
+            qf = Fraction(str(sympy.N(q, 40)))
+        except Exception:  # noqa: BLE001
+            rep.inconclusive += 1
+            continue
+        m = sy.atomic_masses[i]
+        hpf_items.append((nm, kind, u, x, qf, via))
+        hpf_lines.append(f"tonum\tS\t{hexs(u)}\t{frac_str(F(x))}\t{frac_str(rate)}\t{m.p}/{m.q}")
+        rep.dist(f"hp-float:{kind}:{via}")
+    hpf_model = lean_driver(hpf_lines) if (ctx.build_ok and hpf_lines) else None
+    for j, (nm, kind, u, x, qf, via) in enumerate(hpf_items):
+        desc = f"InventoryHP({{{nm!r}: {x!r}}}, {u!r}) via {via}"
+        rep.case(("hpf", nm, u, x, via), sample={"cls": "HP", "nuclide": nm, "unit": u, "amount": x, "via": via} if j % 61 == 0 else None)
+        if hpf_model is not None:
+            mo = out_rat(hpf_model[j])
+            if mo[0] != "ok" or abs(qf - mo[1]) > Fraction(4, 10**15) * abs(mo[1]):
+                fail(desc, f"stores {float(qf)!r} atoms (x ln2 for activity); the amount read to 15 digits gives {mo[1] and float(mo[1])!r}")
     rep.corr["exhaustive"] = thorough
     rep.notes["mismatches"] = bad
 
